@@ -18,28 +18,6 @@ import (
 	"strings"
 )
 
-func vGenByte(seed, i int) byte { return byte(((seed+1)*31 + i*7 + i/13) % 251) }
-
-func vGenBytes(seed, n, c int) []byte {
-	if c < n {
-		c = n
-	}
-	p := make([]byte, n, c)
-	for i := range p {
-		p[i] = vGenByte(seed, i)
-	}
-	return p
-}
-
-func vFnv(bs []byte) uint32 {
-	h := uint32(2166136261)
-	for _, b := range bs {
-		h ^= uint32(b)
-		h *= 16777619
-	}
-	return h
-}
-
 func vDumpLB(id int, b *UnsafeLinkBuffer) string {
 	var sb strings.Builder
 	idx := map[*linkBufferNode]int{}
@@ -115,8 +93,6 @@ func (w *vWorld) dump(ids ...int) string {
 	}
 	return strings.Join(parts, " | ")
 }
-
-func vBytesRes(p []byte) string { return fmt.Sprintf("ok b:%d:%d", len(p), vFnv(p)) }
 
 // exec runs one op line on the implementation and returns the reply line.
 func (w *vWorld) exec(toks []string) (reply string) {
